@@ -710,7 +710,8 @@ class Executor:
             ord_ = ctx.loop_ordinals[id(node)]
             sm = ctx.spec_mode
             ctx.spec_mode = 0
-            ctx.oblige(state, g, f'inv-{kind}[{ord_}]', node, f"loop {ord_} invariant {kind}: {text}")
+            ctx.oblige(state, g, f'inv-{kind}[{ord_}]', node, f"loop {ord_} invariant {kind}: {text}",
+                       assume=False)
             ctx.spec_mode = sm
 
     def assume_invariants(self, spec, state):
